@@ -63,6 +63,7 @@ type ledger struct {
 	ldrLog   map[int]*ldrLogRec
 	configs  map[uint64]string // index -> canonical config (from committed entries)
 
+	reports   map[[2]int]Info // (node, incarnation) -> last status report obtained through a real GetInfo task
 	roundDone map[[3]uint64]uint64 // (leader, term, node) -> LastIndex of the last completed round
 
 	newsAt int // clock of the last transition in which a leader emerged or an index was committed
@@ -73,7 +74,7 @@ type ledger struct {
 	seenViol map[string]bool
 
 	stats struct {
-		leaders, commits, elections, configChanges, snapshots, compactions, restarts, linChecks int
+		leaders, commits, elections, configChanges, snapshots, compactions, restarts, linChecks, infoReports int
 	}
 	oracles map[string]bool // enabled optional oracles (durable, ...)
 }
@@ -106,6 +107,7 @@ func newLedger(w *world) *ledger {
 		seenViol:  map[string]bool{},
 		oracles:   map[string]bool{},
 		roundDone: map[[3]uint64]uint64{},
+		reports:   map[[2]int]Info{},
 		ghost:     -1,
 	}
 	l.installTracer()
@@ -906,6 +908,28 @@ func (l *ledger) checkSnapshot(n *simNode) {
 	}
 	if strings.Join(got, ",") != strings.Join(want, ",") {
 		l.violate("snapshot", "snapshot-contents-differ-from-committed-prefix", fmt.Sprintf("node %d: snapshot at index %d contains [%s], committed updates up to there are [%s]", n.id, meta.index, strings.Join(got, ","), strings.Join(want, ",")))
+	}
+}
+
+// onInfoReport (C19): successive status reports of one running node never show term, commit
+// index, last-applied index or snapshot index decreasing, and every report is ordered.
+func (l *ledger) onInfoReport(n *simNode, in Info) {
+	l.stats.infoReports++
+	key := [2]int{n.idx, n.inc}
+	if old, ok := l.reports[key]; ok {
+		if in.Term < old.Term || in.Committed < old.Committed || in.LastApplied < old.LastApplied || in.SnapshotIndex < old.SnapshotIndex {
+			l.violate("info", "status-report-regressed", fmt.Sprintf("node %d: GetInfo reported term/commit/applied/snapshot %d/%d/%d/%d after %d/%d/%d/%d", n.id, in.Term, in.Committed, in.LastApplied, in.SnapshotIndex, old.Term, old.Committed, old.LastApplied, old.SnapshotIndex))
+		}
+	}
+	l.reports[key] = in
+	if !(in.LastApplied <= in.Committed && in.Committed <= in.LastLogIndex) {
+		l.violate("info", "status-report-unordered", fmt.Sprintf("node %d: GetInfo reported lastApplied %d, committed %d, lastLogIndex %d", n.id, in.LastApplied, in.Committed, in.LastLogIndex))
+	}
+	if !(in.FirstLogIndex-1 <= in.SnapshotIndex && in.SnapshotIndex <= in.LastLogIndex) {
+		l.violate("info", "status-report-snapshot-unordered", fmt.Sprintf("node %d: GetInfo reported firstLogIndex %d, snapshotIndex %d, lastLogIndex %d", n.id, in.FirstLogIndex, in.SnapshotIndex, in.LastLogIndex))
+	}
+	if in.Configs.Committed.Index > in.Configs.Latest.Index {
+		l.violate("info", "status-report-configs-unordered", fmt.Sprintf("node %d: GetInfo reported committed config %d > latest %d", n.id, in.Configs.Committed.Index, in.Configs.Latest.Index))
 	}
 }
 
